@@ -23,7 +23,10 @@ type clipLineEv struct {
 	Re    int        `json:"re"`
 	NT    int        `json:"nt"`
 	S     int        `json:"s"`
+	PSt   int        `json:"pstable"`
 }
+
+var c07Prev prevTracker
 
 func toLS(path [][2]int, s float64) orb.LineString {
 	ls := make(orb.LineString, len(path))
@@ -118,6 +121,7 @@ func c07Call(c *ctx, fn string, S int, box [4]int, paths [][][2]int, open int, r
 		return nil
 	}
 	e.Out = q
+	e.PSt = c07Prev.check(res)
 	if isNil {
 		e.Shape = "nil"
 	} else if shape != "" {
